@@ -5,6 +5,7 @@
 -/
 import Flumine.SimOrder
 import Flumine.Lemmas.Round
+import Flumine.Lemmas.Cents
 import Mathlib.Tactic.Linarith
 import Mathlib.Tactic.SplitIfs
 namespace Flumine.C05
@@ -205,29 +206,6 @@ theorem wap_avg_close (m : List Frag)
   exact round2_err _
 
 /-! ### C05.4 fill-or-kill is all-or-nothing -/
-
-theorem roundHalfEven_small (y : Rat) (h1 : -(1 / 2) ≤ y) (h2 : y ≤ 1 / 2) : roundHalfEven y = 0 := by
-  unfold roundHalfEven
-  have hf1 := Rat.floor_le y
-  have hf2 := Rat.lt_floor_add_one y
-  push_cast at hf2
-  have hfl : y.floor = 0 ∨ y.floor = -1 := by
-    have a : (-1 : Int) ≤ y.floor := by rw [Rat.le_floor_iff]; push_cast; linarith
-    have b : y.floor < 1 := by rw [Rat.floor_lt_iff]; push_cast; linarith
-    omega
-  rcases hfl with e | e
-  · simp only [e]; push_cast
-    split_ifs with a b c <;> first | rfl | (exfalso; push_cast at *; linarith) | omega
-  · simp only [e]; push_cast
-    split_ifs with a b c <;> first | rfl | (exfalso; push_cast at *; linarith) | omega
-
-theorem round2_residual (x : Rat) : round2 (x - round2 x) = 0 := by
-  have h := round2_err x
-  rw [absR_le_iff] at h
-  have : roundHalfEven ((x - round2 x) * 100) = 0 := by
-    apply roundHalfEven_small <;> linarith [h.1, h.2]
-  unfold round2 at this ⊢
-  rw [this]; simp
 
 /-- cancelling the remainder leaves nothing remaining -/
 theorem cancel_remaining_zero (o : SimOrder) (hk : o.kind = .limit) :
